@@ -37,12 +37,19 @@ CHECKS = {'C01': {'level': 'exploration',
                  'With().Range set, With().Count() and Row.Bool() on touched rows equal the model predicate over live model rows; at the end the '
                  'same on four derived collections: stream replica (indexes created before / after replay) and restored snapshot (indexes created '
                  'before / after Restore), which are also compared row-by-row with the model. non-trivial = some index changed membership after its '
-                 'creation through a later transaction, or was back-filled over >=2 populated blocks; distinct = hash of the trace',
+                 'creation through a later transaction, or was back-filled over >=2 populated blocks; distinct = hash of the trace | parallel part '
+                 '(TestC03Parallel): indexes are created, dropped and re-created WHILE 1..4 writer goroutines commit puts and merges on 2..3 blocks; '
+                 "once everything is quiet each index's With().Range set must equal its predicate over the values read back (schedule-independent "
+                 'oracle)',
          'assumptions': ["index predicates decode the value with the column's own width (Reader.Int on an int16 column is zero-extended by design)",
                          'quiescent checks only (no transaction is committing while an index is read)'],
          'tests': [{'run': '^TestC03$',
                     'checks': {'quick': 250, 'thorough': 2500},
                     'shards': {'quick': 1, 'thorough': 16},
+                    'timeout': {'quick': 900, 'thorough': 3400}},
+                   {'run': '^TestC03Parallel$',
+                    'checks': {'quick': 15, 'thorough': 300},
+                    'shards': {'quick': 1, 'thorough': 2},
                     'timeout': {'quick': 900, 'thorough': 3400}}]},
  'C04': {'level': 'exploration',
          'rule': 'data layouts from the model-based history machine (aggregate-safe value domain: small integers, dyadic floats, no NaN; '
